@@ -413,6 +413,12 @@ void World::opBinary(const Step &s)
     BinOp op = BinOp(s.a[0] % BO_NUM);
     if (haveBool && !haveNum) op = BinOp(s.a[0] % 3);
     else if (haveNum && !haveBool) op = BinOp(3 + s.a[0] % (BO_NUM - 3));
+    // calls that get a neutral element as operand (below) concentrate on the
+    // operations that have neutral / absorbing elements
+    if (op > BO_DIFFERENCE && (s.a[4] >> 6) % 6 == 0) {
+        static const BinOp nops[] = { BO_MULTIPLY, BO_MULTIPLY, BO_MULTIPLY, BO_PLUS, BO_MINUS, BO_MAXIMUM, BO_MINIMUM, BO_DIVIDE };
+        op = nops[(s.a[0] >> 5) % 8];
+    }
     cur_family = (op <= BO_DIFFERENCE) ? "setalg" : "arith";
     std::vector<size_t> ca = edgesWhere([&](const EdgeSlot &e) {
         if (e.forest < 0 || !forests[e.forest].alive) return false;
